@@ -222,8 +222,14 @@ def check_planar(case, ctx):
 @st.composite
 def _voxel_cases(draw, tier):
     d = draw(gen.spline(kinds=("surface", "volume"), max_p=2, max_extra=2, vol_max_p=2, vol_max_extra=1, distinct=True))
+    flat = draw(st.sampled_from([None, None, None, 0, 1, 2]))
+    if flat is not None and d["kind"] == "surface":
+        # a planar, axis-aligned surface: all control points share one coordinate (zero extent of the bounding box there)
+        c0 = d["P"][0][flat]
+        d["P"] = [[c0 if i == flat else c for i, c in enumerate(q)] for q in d["P"]]
+        d["flat_axis"] = flat
     return {"defn": d, "grid": [draw(st.integers(2, 8 if tier == "thorough" else 5)) for _ in range(3)], "cubes": draw(st.booleans()),
-            "n": draw(st.integers(2, 5))}
+            "n": draw(st.integers(2, 5)), "procs": draw(st.sampled_from([1, 1, 1, 2, 3]))}
 
 
 def check_voxels(case, ctx):
@@ -231,17 +237,22 @@ def check_voxels(case, ctx):
     obj = build.make(d)
     obj.delta = 1.0 / case["n"]
     bb = obj.bbox
-    if any(bb[1][i] - bb[0][i] < 0.125 for i in range(3)):
-        raise Skip("bounding box is flat in some direction")
+    flat_axes = [i for i in range(3) if bb[1][i] == bb[0][i]]
+    if any(0 < bb[1][i] - bb[0][i] < 0.125 for i in range(3)) or len(flat_axes) > 1:
+        raise Skip("bounding box is thin (but not flat) in some direction, or a line")
+    ctx.label("planar-axis-aligned-shape", bool(flat_axes))
     pts = [list(p) for p in obj.evalpts]
-    grid, filled = voxelize.voxelize(obj, grid_size=tuple(case["grid"]), use_cubes=case["cubes"])
+    kw = {"num_procs": case["procs"]} if case.get("procs", 1) > 1 else {}
+    ctx.label("num_procs>1", bool(kw))
+    grid, filled = voxelize.voxelize(obj, grid_size=tuple(case["grid"]), use_cubes=case["cubes"], **kw)
     ctx.check(len(grid) == len(filled) and len(grid) > 0, "voxel-counts", "%d voxels but %d fill flags" % (len(grid), len(filled)))
     ctx.label("cubes", case["cubes"])
     ctx.label("kind:" + d["kind"])
     amb = 0
     for vx, f in zip(grid, filled):
         lo, hi = vx
-        inside = any(all(lo[i] + 1e-6 < p[i] < hi[i] - 1e-6 for i in range(3)) for p in pts)
+        ax = [i for i in range(3) if i not in flat_axes]          # on a flat axis every sampled point lies on the voxel layer
+        inside = any(all(lo[i] + 1e-6 < p[i] < hi[i] - 1e-6 for i in ax) and all(lo[i] - 1e-9 <= p[i] <= hi[i] + 1e-9 for i in flat_axes) for p in pts)
         outside = all(any(p[i] < lo[i] - 1e-6 or p[i] > hi[i] + 1e-6 for i in range(3)) for p in pts)
         if inside:
             ctx.check(f == 1, "voxel-not-filled", "voxel %r contains a sampled point but is marked empty" % (vx,))
